@@ -613,9 +613,14 @@ def process(cx, schemas, cases, tag, reverse=True, merge=True, laws_every=4, mer
             i = l.split()[0]
             k, c = hidx[i]
             r = hm.get(i, ["err", "NoReply"])
-            if r[0] != "ok" or len(r) != 5:
-                cx.disagree(COMP, l, ["ok", "?", "?", "?", "?"], r)
+            if r[0] != "ok" or len(r) != 6:
+                cx.disagree(COMP, l, ["ok", "?", "?", "?", "?", "?"], r)
                 continue
+            if r[1:4] == ["1", "1", "1"] and r[4] != r[5]:
+                # mergeSafe_of_computed (Diff/LemmasKeyCopy.lean): for computed diffs of well-formed trees the conditions on the key
+                # copies hold by themselves, mergeSafe = mergeSafe0
+                cx.disagree(COMP, "mergeSafe_of_computed: mergeSafe0 and mergeSafe differ on a computed pair: " + l, ["ok"] + r[1:5] + [r[4]], r)
+            cx.dist["hyp3: mergeSafe0 (merge_apply_partial_tree_computed) " + ("holds" if r[5] == "1" else "fails")] += 1
             holds = r[1:5] == ["1", "1", "1", "1"]
             feat = merge_features(c.s, tg.untok(c.s, c.a), tg.untok(c.s, c.b), tg.untok(c.s, c.c), c.D1[1], c.D2[1], None, None, 1, 0)
             cells = sorted(x for x in feat if x.startswith("cell:"))
